@@ -527,7 +527,9 @@ func (c *StructCode) ToAnonymousOpcode(ctx *compileContext) Opcodes {
 				firstField.End = lastField
 			}
 		}
-		prevField = firstField
+		// like ToOpcode: the field that follows is reached from the last field
+		// ( of an embedded struct: from its last inner field )
+		prevField = c.lastFieldCode(field, firstField)
 		codes = codes.Add(fieldCodes...)
 	}
 	return codes
